@@ -20,7 +20,7 @@ from pyglove.core.coding import errors as pg_errors
 from pyglove.core.coding import execution as pg_exec
 from pyglove.core.coding import parsing as pg_parsing
 from pyglove.core.coding import permissions as pg_perm
-from engine.chx import Assume, Violation, reach, untraced
+from engine.chx import Assume, Violation, reach, untraced, concretize
 
 PROPERTY = 'C19'
 LEVEL = 'model_checking'
@@ -309,7 +309,7 @@ def h_nested(params, pi, ci, b0, b1, b2, b3, b4, b5, b6, b7):
 
 # ---- scope rule --------------------------------------------------------------------------
 
-def h_scope(params, s1, s2, s3, e, use1, use2, use3, use_e):
+def h_scope(params, s1, s2, s3, e, use1, use2, use3, use_e, prog=4):
   """Effective permission under nested permission() scopes and an explicit permission= argument is never
   wider than the outermost scope; the scopes restore on exit."""
   def perm_of(x):
@@ -325,17 +325,25 @@ def h_scope(params, s1, s2, s3, e, use1, use2, use3, use_e):
       if x == c:
         return c
     raise Assume()
-  s1, s2, s3, e = conc(s1), conc(s2), conc(s3), conc(e)
   use1, use2, use3, use_e = bool(use1), bool(use2), bool(use3), bool(use_e)
+  if use3 and params.get('depth', 3) < 3:
+    raise Assume()
+  # (lazily: a permission value is a solver decision only for the scopes / argument that are present)
+  s1, s2, s3, e = (conc(x) if u else 0 for x, u in ((s1, use1), (s2, use2), (s3, use3), (e, use_e)))
+  prog = params['prog'] if params.get('prog') is not None else concretize(prog, range(len(SCOPE_PROGRAMS)))
   with untraced():
-    return _scope_body(perm_of, s1, s2, s3, e, use1, use2, use3, use_e)
+    return _scope_body(perm_of, s1, s2, s3, e, use1, use2, use3, use_e, prog)
 
 
-def _scope_body(perm_of, s1, s2, s3, e, use1, use2, use3, use_e):
+# programs needing each subset of the three permissions the scopes range over
+SCOPE_PROGRAMS = [('x = 1', P.ASSIGN), ('abs(1)', P.CALL), ('x = abs(1)', P.ASSIGN | P.CALL), ('import os', P.IMPORT),
+                  ('import os\nx = abs(1)', P.IMPORT | P.ASSIGN | P.CALL), ('import os\nx = 1', P.IMPORT | P.ASSIGN)]
+
+
+def _scope_body(perm_of, s1, s2, s3, e, use1, use2, use3, use_e, prog=4):
   scopes = [perm_of(x) for x, u in ((s1, use1), (s2, use2), (s3, use3)) if u]
   reach('scope')
-  code = 'import os\nx = abs(1)'          # needs IMPORT, ASSIGN, CALL
-  need = P.IMPORT | P.ASSIGN | P.CALL
+  code, need = SCOPE_PROGRAMS[prog]
   before = pg_perm.get_permission()
   with contextlib.ExitStack() as st:
     for p in scopes:
@@ -499,9 +507,14 @@ def shards(tier, seed):
     out.append(dict(name=f'nested:{parent}', fn='h_nested_p', params=dict(pi=pi), args=[('ci', 'int')] + bits,
                     budget_s=b, per_path_s=20))
   out.append(dict(name='gate:all', fn='h_gate_all', params={}, args=[('nidx', 'int')], budget_s=b, per_path_s=20))
-  out.append(dict(name='scope', fn='h_scope', params={},
-                  args=[('s1', 'int'), ('s2', 'int'), ('s3', 'int'), ('e', 'int'), ('use1', 'bool'), ('use2', 'bool'),
-                        ('use3', 'bool'), ('use_e', 'bool')], budget_s=b * 2, per_path_s=20))
+  for prog in range(len(SCOPE_PROGRAMS)):
+    out.append(dict(name=f'scope:prog{prog}', fn='h_scope', params=dict(prog=prog, depth=2 if quick else 3),
+                    args=[('s1', 'int'), ('s2', 'int'), ('s3', 'int'), ('e', 'int'), ('use1', 'bool'), ('use2', 'bool'),
+                          ('use3', 'bool'), ('use_e', 'bool'), ('prog', 'int')], budget_s=b * 3, expect_s=50, per_path_s=20))
+  if quick:
+    out.append(dict(name='scope:prog4:depth3', fn='h_scope', params=dict(prog=4, depth=3),
+                    args=[('s1', 'int'), ('s2', 'int'), ('s3', 'int'), ('e', 'int'), ('use1', 'bool'), ('use2', 'bool'),
+                          ('use3', 'bool'), ('use_e', 'bool'), ('prog', 'int')], budget_s=b * 5, expect_s=90, per_path_s=20))
   for lo in range(0, len(TEMPLATES), 4):
     out.append(dict(name=f'fidelity:{lo}', fn='h_fidelity_r', params=dict(lo=lo, hi=lo + 4), args=[('ti', 'int'), ('a', 'int'), ('b', 'int')],
                     budget_s=b, per_path_s=20))
